@@ -181,6 +181,23 @@ func TestVerifC09(t *testing.T) {
 			}
 			var el int64
 			bytesMode := r.Chance(1, 6)
+			if r.Chance(1, 6) {
+				// far cycles: a backlog carried across the roll-over into cycle K, K at the
+				// powers of two where a narrower counter or a periodic re-base would wrap
+				K := []int64{255, 256, 65535, 65536, 65537, 1<<31 - 1, 1 << 31, 1<<32 - 1, 1 << 32}[r.Intn(9)]
+				in.T = in.P * int64(r.Range(2, 6))
+				bytesMode = false
+				el = (K - 1) * in.P // first instant of cycle K-1
+				in.Ops = append(in.Ops, [2]int64{el, 1})
+				for b := r.Range(in.L, 4*in.L+2); b > 0; b-- {
+					in.Ops = append(in.Ops, [2]int64{0, 1})
+				}
+				in.Ops = append(in.Ops, [2]int64{in.P, 1}) // exactly onto cycle K
+				el += in.P
+				for b := r.Range(in.L, 4*in.L+2); b > 0; b-- {
+					in.Ops = append(in.Ops, [2]int64{0, 1})
+				}
+			}
 			for j := 0; j < k; j++ {
 				dt := c09GenDt(r, in.P, el)
 				el += dt
